@@ -1,1 +1,2 @@
-
+import RoProps.C01
+import RoProps.C04
